@@ -155,3 +155,18 @@ Qed.
 (* the quantizer depends only on the value of its input *)
 Lemma quantize_eqv f r o a b : dy_eqb a b = true -> quantize f r o a = quantize f r o b.
 Proof. intros H. unfold quantize. f_equal. apply round_dy_eqv. apply dy_scale_eqv. exact H. Qed.
+
+(* monotonicity for ANY two dyadic inputs (whatever their exponents): align both on the
+   smaller exponent — the value, hence the quantization, is unchanged — and compare mantissas *)
+Lemma dy_realign a E : E <= de a -> dy_eqb a {| dm := dm a * 2^(de a - E); de := E |} = true.
+Proof.
+  intros HE. unfold dy_eqb, dy_align. cbn [dm de]. rewrite Z.min_r by lia. rewrite Z.sub_diag, Z.pow_0_r. lia.
+Qed.
+Theorem quantize_monotone_gen f r a b : dy_leb a b = true ->
+  quantize f r Saturate a <= quantize f r Saturate b.
+Proof.
+  intros Hle. set (E := Z.min (de a) (de b)).
+  rewrite (quantize_eqv f r Saturate a _ (dy_realign a E ltac:(unfold E; lia))).
+  rewrite (quantize_eqv f r Saturate b _ (dy_realign b E ltac:(unfold E; lia))).
+  apply quantize_monotone. unfold dy_leb, dy_align in Hle. fold E in Hle. lia.
+Qed.
